@@ -34,9 +34,14 @@ def slotWait (w : Wait) : Bool :=
     itself (`Process`, `pushToReceivedMessageQueue`) it would wait for its own return. -/
 def drainLoop (w : Wait) : Bool := w.fn == "ReceivedMessageReader.loop"
 
+/-- `net/conn.go handshake`: the awaited result is the transport's own handshake, which the closing of the socket ends
+    (trusted: pion dtls / crypto/tls); the context it listens to is its caller's - the request's for an operation, the
+    connection's for the reader (Part 4) -/
+def transportWait (w : Wait) : Bool := w.fn == "Conn.handshake"
+
 def waitOK (w : Wait) : Bool :=
   covered w || (receivePath w && (w.cases.contains "connctx" || (drainLoop w && w.cases.contains "conndone"))) ||
-  (slotWait w && w.cases.contains "reqctx")
+  (slotWait w && w.cases.contains "reqctx") || (transportWait w && w.cases.contains "reqctx")
 
 structure Signals where
   reqCancelled : Bool
@@ -141,5 +146,39 @@ def wstep (closeLocks armsDeadline : Bool) (s : WState) : WEv → WState
 
 def wrun (closeLocks armsDeadline : Bool) (s : WState) (evs : List WEv) : WState :=
   evs.foldl (wstep closeLocks armsDeadline) s
+
+/-! ### Part 4: the handshake gate (`net/conn.go handshake`, DTLS / TLS)
+
+The peer leaves the handshake unanswered.  The connection's reader is inside the transport's `HandshakeContext` (with
+the connection's context) and holds the transport's handshake mutex; an operation calls `handshake(ctx)` with its own
+context.  `waitsForCtx` is the fact read from the source: the operation waits in a select with a `ctx.Done()` case
+instead of calling the transport directly. -/
+
+structure HState where
+  readerIn : Bool := true     -- the reader's handshake is in progress (it holds the transport's handshake mutex)
+  opWaiting : Bool := true    -- the operation is inside handshake(ctx)
+  opCtxDone : Bool := false
+  closed : Bool := false      -- the socket has been closed
+  deriving Repr, DecidableEq
+
+inductive HEv
+  | ctxEnds     -- the operation's context is cancelled / expires
+  | close       -- somebody closes the connection
+  | sched       -- the runtime runs every goroutine as far as it can
+  deriving Repr, DecidableEq
+
+def hstep (waitsForCtx : Bool) (s : HState) : HEv → HState
+  | .ctxEnds => { s with opCtxDone := true }
+  | .close => { s with closed := true }
+  | .sched =>
+    let readerIn := s.readerIn && !s.closed          -- the transport ends a handshake whose socket is closed
+    -- the operation leaves handshake(ctx): by its select, or - once the mutex is free - because its own transport
+    -- handshake ends with its context / the socket
+    let leaves := (waitsForCtx && s.opCtxDone) || (!readerIn && (s.opCtxDone || s.closed))
+    if s.opWaiting && leaves then
+      { s with readerIn := readerIn, opWaiting := false, closed := true }   -- a failed handshake closes the connection
+    else { s with readerIn := readerIn }
+
+def hrun (waitsForCtx : Bool) (s : HState) (evs : List HEv) : HState := evs.foldl (hstep waitsForCtx) s
 
 end CoapVerif.Model.Lifecycle
